@@ -37,7 +37,7 @@ def run(ctx):
     items, exp = [], []
     for ln in _json.corpus_lines("C06"):
         pass
-    for d in _json.gen_docs(ctx, N):
+    for d in _json.long_string_docs(ctx.rng) + _json.gen_docs(ctx, N):
         w = rng.choice(_json.WIDTHS)
         try:
             e = jsongen.denote(d, _json.WNUM[w])
